@@ -87,6 +87,26 @@ func evPodStart(g h.GroupSpec, node string, cpu int64) h.Event {
 	return h.Event{Label: fmt.Sprintf("pod-start(%s,%dm)", node, cpu), Apply: func(hh *h.Hist) { hh.W.AddPod(podOn(g, node, cpu)) }}
 }
 
+// affinityPod: a pod selected into the group by its second required node-affinity term (the first
+// names another value), or — with notIn — not selected at all: it only mentions the group's value
+// in a NotIn expression.
+func affinityPod(g h.GroupSpec, node string, cpu int64, notIn bool) sim.PodOpt {
+	o := sim.PodOpt{Node: node, CPUMilli: cpu, MemBytes: 64 << 20}
+	terms := []v1.NodeSelectorTerm{
+		{MatchExpressions: []v1.NodeSelectorRequirement{{Key: g.Opts.LabelKey, Operator: v1.NodeSelectorOpIn, Values: []string{"some-other-group"}}}},
+		{MatchExpressions: []v1.NodeSelectorRequirement{{Key: g.Opts.LabelKey, Operator: v1.NodeSelectorOpIn, Values: []string{g.Opts.LabelValue}}}},
+	}
+	if notIn {
+		terms = []v1.NodeSelectorTerm{{MatchExpressions: []v1.NodeSelectorRequirement{{Key: g.Opts.LabelKey, Operator: v1.NodeSelectorOpNotIn, Values: []string{g.Opts.LabelValue}}}}}
+	}
+	o.Affinity = &v1.Affinity{NodeAffinity: &v1.NodeAffinity{RequiredDuringSchedulingIgnoredDuringExecution: &v1.NodeSelector{NodeSelectorTerms: terms}}}
+	return o
+}
+
+func evPodStartAffinity(g h.GroupSpec, node string, cpu int64) h.Event {
+	return h.Event{Label: fmt.Sprintf("pod-start-by-affinity(%s,%dm)", node, cpu), Apply: func(hh *h.Hist) { hh.W.AddPod(affinityPod(g, node, cpu, false)) }}
+}
+
 func evPodFinish(g h.GroupSpec, node string) h.Event {
 	return h.Event{Label: "pod-finish(" + node + ")", Apply: func(hh *h.Hist) {
 		for i, p := range hh.W.Pods {
